@@ -99,6 +99,20 @@ chk("C17",
     "machine-checked proof in Coq (heap invariant by induction over operation sequences) + translator/alias-graph correspondence",
     "DESIGN.md section 6, C17")
 
+chk("C08",
+    "Coq theorems: export followed by import restores exactly the same current values and full history for every "
+    "reachable state (heap model of C17); for every op list of atomic shape, every crash point and every surviving "
+    "prefix of un-synced bytes the final name is absent/old-complete or new-complete, and the op list extracted from "
+    "save_sampler_state has that shape for arbitrary write chunks; a complete save leaves exactly the written bytes "
+    "durable; checkpoints are written exactly at t0 + k*save_every. Pinned direct write refuted. Tie: Gen.Checkpoint "
+    "(IO op list, load plumbing, pool detach, cadence) + Link; every checkpoint of real runs reloaded and compared bit "
+    "for bit; resume from checkpoints (numbering, identical prefix, postconditions); the real IO trace; subprocess "
+    "crash injection (os._exit) before every IO event and inside writes.",
+    "Trusted: Coq kernel; python translator/harness; crash model (un-fsynced bytes survive in any prefix, rename "
+    "atomic); dill.load rejects truncated dumps; the pickled sampler blob inside the checkpoint is not compared.",
+    "machine-checked proof in Coq (crash-prefix induction over IO lists; heap-model round-trip) + translator/fault-injection correspondence",
+    "DESIGN.md section 6, C08")
+
 for pid in [f"C{i:02d}" for i in range(1, 21)]:
     if pid not in CHECKS:
         NA[pid] = "check not built yet in this session (planned in DESIGN.md section 6); not claimed"
